@@ -162,14 +162,16 @@ func (vf *VersionedFetcher) Init(
 		false,
 	) // were going to discard and nuke this later
 
-	// run the DF init, VersionedFetchers only supports the Primary (0) index
+	// run the DF init, VersionedFetchers only supports the Primary (0) index: the temporary
+	// store is rebuilt from the commits of one document and holds no secondary index entries,
+	// a secondary index would make every filter on its fields match nothing.
 	vf.Fetcher = NewDocumentFetcher()
 	return vf.Fetcher.Init(
 		ctx,
 		identity,
 		vf.store,
 		documentACP,
-		index,
+		immutable.None[client.IndexDescription](),
 		col,
 		fields,
 		filter,
